@@ -163,7 +163,7 @@ impl Check for C11 {
 
     fn runs(&self, tier: Tier) -> u64 {
         match tier {
-            Tier::Quick => 40_000,
+            Tier::Quick => 60_000,
             Tier::Thorough => 1_500_000,
         }
     }
